@@ -40,6 +40,8 @@ func ProtoFuncByName(name string) erpc.ProtoFunc {
 		return pbproto.NewPbProtoFunc()
 	case "thriftbin":
 		return thriftproto.NewBinaryProtoFunc()
+	case "thriftstruct":
+		return thriftproto.NewStructProtoFunc()
 	}
 	return nil
 }
@@ -151,6 +153,24 @@ func (c *PP) Push(arg *pb.Payload) *erpc.Status {
 	return nil
 }
 
+// CTT / PTT: thrift codec, the harness's thrift document as the body type (Author = tag, Blob = padding): /ctt/call, /ptt/push
+type CTT struct{ erpc.CallCtx }
+
+func (c *CTT) Call(arg *ThriftDoc) (*ThriftDoc, *erpc.Status) {
+	tag, pad := curCorr.handle("call", Name(c.Session()), c.Seq(), func() string { return metaView(c) },
+		func() (string, string) { return arg.Author, string(arg.Blob) })
+	replyMeta(c, tag)
+	return &ThriftDoc{Author: F(tag), Blob: []byte(pad)}, nil
+}
+
+type PTT struct{ erpc.PushCtx }
+
+func (c *PTT) Push(arg *ThriftDoc) *erpc.Status {
+	curCorr.handle("push", Name(c.Session()), c.Seq(), func() string { return metaView(c) },
+		func() (string, string) { return arg.Author, string(arg.Blob) })
+	return nil
+}
+
 // metaVisitor is the part of the handler contexts used to read the request metadata.
 type metaVisitor interface {
 	VisitMeta(f func(key, value []byte))
@@ -224,6 +244,8 @@ func corrRoutes(p erpc.Peer) {
 	p.RoutePush(new(PS))
 	p.RouteCall(new(CP))
 	p.RoutePush(new(PP))
+	p.RouteCall(new(CTT))
+	p.RoutePush(new(PTT))
 }
 
 // PadFor derives a deterministic printable padding of n bytes from a tag.
@@ -331,6 +353,8 @@ func runCorr(rec *Rec, sc *CorrScenario, n int) {
 		callRoute, pushRoute = "/cs/call", "/ps/push"
 	case "p":
 		callRoute, pushRoute = "/cp/call", "/pp/push"
+	case "t":
+		callRoute, pushRoute = "/ctt/call", "/ptt/push"
 	}
 	mk := func(tag, pad string) (arg interface{}, res interface{}, read func() (string, string)) {
 		switch sc.Codec {
@@ -341,6 +365,9 @@ func runCorr(rec *Rec, sc *CorrScenario, n int) {
 		case "p":
 			r := new(pb.Payload)
 			return &pb.Payload{ServiceMethod: tag, Body: []byte(pad)}, r, func() (string, string) { return r.ServiceMethod, string(r.Body) }
+		case "t":
+			r := new(ThriftDoc)
+			return &ThriftDoc{Author: tag, Blob: []byte(pad)}, r, func() (string, string) { return r.Author, string(r.Blob) }
 		}
 		r := new(Res)
 		return &Arg{Tag: tag, Pad: pad}, r, func() (string, string) { return r.Tag, r.Pad }
@@ -420,7 +447,17 @@ func runCorr(rec *Rec, sc *CorrScenario, n int) {
 	case <-time.After(60 * time.Second):
 		rec.Emit("WorkloadHang")
 	}
-	// pushes are handled asynchronously
-	time.Sleep(3 * time.Millisecond)
+	// pushes are handled asynchronously: wait until every message sent has reached its handler (bounded; a
+	// message that never arrives is for the specification to judge), then until the handlers have returned
+	WaitUntil(3*time.Second, func() bool { return atomic.LoadInt64(&app.enters) >= atomic.LoadInt64(&started) })
+	last, stable := rec.Count(), 0
+	for i := 0; i < 400 && stable < 4; i++ {
+		time.Sleep(500 * time.Microsecond)
+		if now := rec.Count(); now == last {
+			stable++
+		} else {
+			last, stable = now, 0
+		}
+	}
 	rec.Emit("End", "started", atomic.LoadInt64(&started), "finished", atomic.LoadInt64(&finished), "enters", atomic.LoadInt64(&app.enters))
 }
